@@ -28,12 +28,14 @@ pub fn run_decode(sim: &Sim, _idx: u64) {
     let dec_buffer = sim.pick(&[1usize, 64, 8192]);
     // ---- the probe frame ----
     let kind = sim.weighted(&[6, 3, 1]); // materialised payload / declared only / around the 4 MiB default
+    let mut probe_ser: Option<Vec<u8>> = None; // what the probe must decode to, when it is accepted
     let (probe_frame, w, declared_only): (Vec<u8>, usize, bool) = match kind {
         0 => {
             let ser = match sim.draw(3) {
                 0 => vec![0u8; sim.range(0, 20_000) as usize], // compresses to almost nothing
                 _ => sim.bytes(sim.pick(&[0usize, 1, 2, 5, 6, 99, 100, 101, 1000, 1001, 65_535, 65_536, 65_537])),
             };
+            probe_ser = Some(ser.clone());
             let (flag, payload) = match enc {
                 Some(e) if sim.chance(2, 3) => (1u8, indep::compress(e, &ser)),
                 _ => (0u8, ser),
@@ -51,6 +53,7 @@ pub fn run_decode(sim: &Sim, _idx: u64) {
         }
         _ => {
             let w = sim.pick(&[DEFAULT_DEC_LIMIT - 1, DEFAULT_DEC_LIMIT, DEFAULT_DEC_LIMIT + 1]);
+            probe_ser = Some(vec![0u8; w]);
             (indep::frame(0, &vec![0u8; w]), w, false)
         }
     };
@@ -148,6 +151,20 @@ pub fn run_decode(sim: &Sim, _idx: u64) {
                 "C06/message-within-limit-refused",
                 format!("wire length {w} <= limit {lim}, but history is {} (expected {want} items then end)", show(&observed)),
             );
+        } else {
+            // ... unchanged: the limit is on the wire length, so a compressed message within it is
+            // delivered whole however large it inflates; the messages after it too
+            let got_probe = items[expect.len()];
+            if let Some(ps) = &probe_ser {
+                if got_probe != ps {
+                    sim.violation("C06/accepted-message-altered", format!("wire length {w} <= limit {lim}: the message decodes to {} bytes, the accepted item has {} bytes (enc {enc:?})", ps.len(), got_probe.len()));
+                } else if ps.len() > lim {
+                    sim.probe("accepted-message-inflates-beyond-limit");
+                }
+            }
+            if items[expect.len() + 1..].iter().zip(after_msgs.iter()).any(|(a, b)| *a != b) {
+                sim.violation("C06/messages-after-the-probe-altered", format!("history {}", show(&observed)));
+            }
         }
     } else if !accept {
         if items.len() > expect.len() {
@@ -188,6 +205,9 @@ pub struct LenEncoder {
 pub enum LenItem {
     Bytes(Vec<u8>),
     Untouched(usize),
+    /// the encoder writes `partial` bytes of this message and then fails (a codec whose
+    /// serialization can fail: a value out of the schema's range, an io error of a writer)
+    Fail { partial: usize, code: Code },
 }
 
 impl Encoder for LenEncoder {
@@ -205,12 +225,68 @@ impl Encoder for LenEncoder {
                 // the length and refuses the message.  Pages stay untouched (no RSS).
                 unsafe { dst.advance_mut(n) };
             }
+            LenItem::Fail { partial, code } => {
+                dst.reserve(partial);
+                dst.put_bytes(0xEE, partial);
+                return Err(Status::new(code, "encoder: this message cannot be serialized"));
+            }
         }
         Ok(())
     }
     fn buffer_settings(&self) -> BufferSettings {
         self.settings
     }
+}
+
+/// A message the codec fails to serialize, at any position, after having written any part of it:
+/// the body stays a concatenation of whole messages (exactly those produced before it, C03) and
+/// ends with an error status (server: exactly one grpc-status, in the trailers).
+pub fn run_encoder_error(sim: &Sim, _idx: u64) {
+    let role = if sim.chance(1, 2) { Role::Client } else { Role::Server };
+    let enc: Option<Enc> = if sim.chance(1, 3) { Some(sim.pick(&indep::ALL_ENC)) } else { None };
+    let nb = sim.range(0, 4);
+    let before: Vec<Vec<u8>> = (0..nb).map(|_| sim.bytes(sim.pick(&[0usize, 1, 5, 40, 700, 9000]))).collect();
+    let na = sim.range(0, 2);
+    let partial = sim.pick(&[0usize, 1, 4, 5, 6, 100, 8192, 20_000]);
+    let code = sim.pick(&[Code::Internal, Code::InvalidArgument, Code::DataLoss]);
+    let mut items: Vec<Result<LenItem, Status>> = before.iter().map(|m| Ok(LenItem::Bytes(m.clone()))).collect();
+    items.push(Ok(LenItem::Fail { partial, code }));
+    for _ in 0..na {
+        items.push(Ok(LenItem::Bytes(sim.bytes(sim.pick(&[0usize, 3, 50])))));
+    }
+    let enc_buffer = sim.pick(&[1usize, 64, 8192]);
+    let enc_yield = sim.pick(&[0usize, 5, 64, 1000, 32768]);
+    let src_pending = sim.pick(&[0u64, 0, 30, 80]);
+    sim.nontrivial();
+    sim.sample(|| format!("encoder-error: role={role:?} enc={enc:?} before={:?} partial={partial} code={code:?} after={na} yield={enc_yield} src_pending%={src_pending}", before.iter().map(|m| m.len()).collect::<Vec<_>>()));
+    sim.ev(|| format!("config encoder-error: role={role:?} enc={enc:?} before={:?} partial={partial} code={code:?} after={na} yield={enc_yield} buffer={enc_buffer} src_pending%={src_pending}", before.iter().map(|m| m.len()).collect::<Vec<_>>()));
+    sim.probe(if before.is_empty() { "failing-message-first" } else { "failing-message-not-first" });
+    let encoder = LenEncoder { settings: BufferSettings::new(enc_buffer, enc_yield) };
+    let obs = encode_body(sim, role, encoder, items, src_pending, enc.map(|e| e.tonic()), None, 2);
+    match obs.ended_by {
+        "hang" => return sim.violation("C03/lost-wakeup-in-encoder", "EncodeBody returned Pending with no wake-up registered".into()),
+        "livelock" => return sim.violation("C03/call-hangs", "EncodeBody never finished after an encoder error".into()),
+        _ => {}
+    }
+    let data = obs.data();
+    // tonic reports a codec's failure as its own INTERNAL "Error encoding: ..." status; the property
+    // only asks that the call ends with *an* error status, once
+    match role {
+        Role::Server => {
+            let status_code: Option<i32> = obs.trailers().first().and_then(|t| t.get("grpc-status")).and_then(|v| v.to_str().ok()).and_then(|s| s.parse().ok());
+            if matches!(status_code, None | Some(0)) {
+                sim.violation("C03/encoder-error-ends-call-without-error-status", format!("the encoder failed with {code:?}; grpc-status in the trailers: {status_code:?} (ended by {})", obs.ended_by));
+            }
+            c03::check_server_body_end(sim, "EncodeBody(server, encoder error)", &obs, 0);
+        }
+        Role::Client => {
+            if obs.error().is_none() {
+                sim.violation("C03/encoder-error-ends-call-without-error-status", format!("the encoder failed with {code:?}; the request body ended cleanly (ended by {})", obs.ended_by));
+            }
+        }
+    }
+    // exactly the messages produced before the failing one, whole, nothing of the failing one
+    c03::check_message_bytes(sim, "EncodeBody(encoder error)", &data, enc, &before, true);
 }
 
 pub fn run_encode(sim: &Sim, _idx: u64) {
